@@ -169,5 +169,26 @@ func scenariosC16(tier string) []Scen {
 			}
 		}
 	}
+	// client side: one goroutine at a time uses the connection; operations are cancelled at every
+	// point; the helper goroutines must be joined and ordered with the next operation (C17's scenarios,
+	// judged here only for races and for helpers outliving their operation)
+	for _, sc := range scenariosC17(tier) {
+		d, ok := sc.Desc.(c17Desc)
+		if !ok || len(d.Ops) > 2 {
+			continue
+		}
+		inner := sc.Check
+		sc.Check = func(x *vsched.Exec) (string, string) {
+			msg, key := inner(x)
+			if strings.HasPrefix(key, "race ") || key == "symptom=helper-outlives-operation" || key == "panic" {
+				return msg, key
+			}
+			return "", ""
+		}
+		if tier == "quick" && sc.Bound > 2 {
+			sc.Bound = 2
+		}
+		out = append(out, sc)
+	}
 	return out
 }
